@@ -7,8 +7,40 @@ import sys
 
 HERE = os.path.dirname(os.path.dirname(os.path.abspath(__file__)))
 
+W = ('mock git host backed by a real bare git repository, real git, real '
+     'BertE.put_job/process_task; sampled histories (<= 3 pull requests); '
+     'see the evidence file\'s assumptions')
+
 # id -> (level, technique, level text, level note, design ref)
 CHECKS = {
+    'C01': ('exploration',
+            'runtime invariant monitor: git merge-base --is-ancestor on the '
+            'bare remote before/after every job of generated histories',
+            'Real Bert-E is driven through random + directed histories on '
+            'real repositories in 3 queue modes x octopus/no_octopus x 8 '
+            'layouts; after EVERY job an independent oracle re-checks the '
+            'inclusion chain on the remote. Held = no job broke it on the '
+            'histories produced (counts in evidence).',
+            W, 'DESIGN.md section 3, C01'),
+    'C02': ('fault_enumeration',
+            'failpoints at the process boundary (git shim, git-host call '
+            'wrappers, server-side update hook) enumerated over every '
+            'operation boundary and every pushed ref of explored jobs; '
+            'recovery differential on tree ids in fork children',
+            'For each explored job: reference run, then one child per crash '
+            'boundary and one per (push, rejected ref); all-or-none + C01 '
+            'observed at the interrupted state and after every recovery job; '
+            'drained destination trees compared with the uninterrupted run.',
+            W + '; crash = every later remote-mutating operation fails',
+            'DESIGN.md section 3, C02'),
+    'C03': ('exploration',
+            'runtime monitor at every destination movement: new tip looked '
+            'up in the host build-status table; exemptions from harness '
+            'knowledge only',
+            'Queue-mode histories with hostile CI reports (5 states, stale '
+            'tips, any order); every advance of an existing destination ref '
+            'is checked against the status table.',
+            W, 'DESIGN.md section 3, C03'),
     'C04': ('exploration',
             'runtime oracle on the real gate function: exhaustive input '
             'enumeration through handle_comments + check_approvals on a stub '
@@ -22,6 +54,118 @@ CHECKS = {
             'handle_comments, check_approvals; "waived" read as bypassed or '
             'count 0',
             'DESIGN.md section 3, C04'),
+    'C05': ('exploration',
+            'real BranchCascade + QueueCollection executed on an in-memory '
+            'git (FakeGit) over enumerated queue graphs and status '
+            'assignments, compared with a longest-green-prefix oracle',
+            'Exhaustive slices of (layout, queue of <= 4 PRs, destination '
+            'choice, status assignment) run through the real selection code; '
+            'sub-spaces completed are listed in the evidence.',
+            'FakeGit interprets the few git command lines the code issues; '
+            'unknown command = inconclusive; graphs built the way '
+            'add_to_queue builds them',
+            'DESIGN.md section 3, C05'),
+    'C06': ('exploration',
+            'F: exhaustive status vectors through the real '
+            'check_build_status; W: runtime monitor on queue entry / direct '
+            'merge / refusals in hostile-CI histories using the host status '
+            'table and the status queries Bert-E made',
+            'All 5^n vectors (n<=4) x bypass sources x build key at function '
+            'level; at system level every Queued / SuccessMessage / Build* '
+            'outcome of generated histories is checked against the host '
+            'table.',
+            W, 'DESIGN.md section 3, C06'),
+    'C07': ('exploration',
+            'real handle_comments + Reactor on stub jobs over a structured '
+            'comment grammar (singles, all pairs, all triples of nested '
+            'alphabets); necessary-condition, first-offence and metamorphic '
+            'oracles',
+            'Comments are generated from a structured form so the oracle '
+            'never re-parses text; P1/P2 necessary conditions, P3 blocking '
+            'class of the first offending comment, P4 invariance under '
+            'unaddressed comments.',
+            'stub pull request; option registry of the real commands.py',
+            'DESIGN.md section 3, C07'),
+    'C08': ('fault_enumeration',
+            'ownership monitor on refs + push argv after every job, and one '
+            'third-party action placed by the git shim immediately before '
+            'each push of explored jobs (fork children)',
+            'Every (push, third-party action) placement of explored jobs is '
+            'executed; the foreign ref must keep the third party\'s value; '
+            'plus fast-forward / reachability / archive-tag / no-force '
+            'monitors on every job of generated histories.',
+            W, 'DESIGN.md section 3, C08'),
+    'C09': ('exploration',
+            'real BranchCascade driven over enumerated branch sets, tag sets, '
+            'destinations and discovery orders, compared with an independent '
+            'computation of targets / ignored branches / fix versions',
+            'Bounded-exhaustive enumeration of the quantifier\'s universe '
+            '(subsets of a ~20-name grid x tag sets x destination x order).',
+            'fake repository answering the git command lines of '
+            'BranchCascade.build; inclusion holds in the fake graph',
+            'DESIGN.md section 3, C09'),
+    'C10': ('exploration',
+            'fork differential: each possible evaluation delivered three '
+            'times (third must be a no-op, commands not re-run) and once on '
+            'a fresh instance (same status and state); adjacent-duplicate '
+            'comment monitor on all histories',
+            'At sampled reachable states every evaluation is repeated in '
+            'fork children and compared; commit ids are reproducible because '
+            'dates are pinned.',
+            W, 'DESIGN.md section 3, C10'),
+    'C11': ('exploration',
+            'real jira_checks on stub jobs with a fake issue store over '
+            'enumerated names x issues x fixVersion subsets x cascades x '
+            'settings x bypass sources, against an ordered-checks oracle',
+            'About 7e5 (quick) / 5e6 (thorough) cells through the real gate; '
+            'expected versions written by hand from the C09 statement.',
+            'JiraIssue replaced in the harness process; real BranchCascade '
+            'populated through its own methods',
+            'DESIGN.md section 3, C11'),
+    'C13': ('exploration',
+            'deterministic controlled scheduler (sys.monitoring LINE events) '
+            'over the real put_job / process_task / job __eq__; offline '
+            'checker of accept/dequeue event logs; bounded-preemption '
+            'enumeration + PCT-style random schedules',
+            'Every explored interleaving is a deterministic function of a '
+            'choice sequence; the oracle checks that each accepted event is '
+            'followed by a later dequeue of an equal job, and the worker\'s '
+            'bookkeeping after each job.',
+            'queue.Queue internals trusted (not instrumented); line '
+            'granularity inside the dispatcher only',
+            'DESIGN.md section 3, C13'),
+    'C14': ('exploration',
+            'full request matrix through the real Flask app (test client) '
+            'with the route table cross-checked against app.url_map; oracle '
+            'table from the statement and API documentation',
+            'Every endpoint x method x session x parameter class, forms with '
+            'CSRF, both webhook routes x credentials x identity x event; '
+            'status code and task-queue delta compared per request.',
+            'BertE constructor replaced as in test_server.py; requests '
+            'adapter routes the forms\' own HTTP call back into the app',
+            'DESIGN.md section 3, C14'),
+    'C17': ('exploration',
+            'exhaustive run lists through the real AggregatedWorkflowRuns; '
+            'exhaustive/sampled webhook+poll sequences through the real '
+            'clients, Flask webhook routes and LRU cache against a '
+            'sticky-green reference model; LRU size invariant at every '
+            'get/set',
+            'Aggregation: all ordered lists of <= 4 runs (necessary '
+            'condition). Cache: all histories of <= 4 operations (+ 5 ending '
+            'in a poll) for both hosts and cache sizes 1 / 1000.',
+            'scripted requests adapter stands for the host; eviction '
+            'asserted only where certain',
+            'DESIGN.md section 3, C17'),
+    'C18': ('exploration',
+            'real branch_factory / GWFBranch classes / name construction and '
+            'handle_commit over a bounded name grammar, compared with a '
+            'hand-written string-operation classifier; round trip of derived '
+            'names',
+            '2.3e6 (quick) / 1.2e7 (thorough) distinct names and 5e5 / 3e6 '
+            '(pr, version, source) triples.',
+            'names that are not valid git refs, leading zeros and non-ASCII '
+            'digits are don\'t-cares',
+            'DESIGN.md section 3, C18'),
 }
 
 ALL = ['C%02d' % i for i in range(1, 21)]
@@ -32,8 +176,10 @@ NOT_YET = 'monitor not built yet in this round (see DESIGN.md section 3); ' \
 
 def main():
     checks = []
+    import os as _os
     for pid in ALL:
-        if pid not in CHECKS:
+        if pid not in CHECKS or not _os.path.exists(_os.path.join(
+                HERE, 'vf', 'checks', pid.lower() + '.py')):
             continue
         level, technique, text, note, ref = CHECKS[pid]
         checks.append({
@@ -65,7 +211,7 @@ def main():
         'engines': [{
             'name': 'vf',
             'path': 'vf/',
-            'serves_properties': sorted(CHECKS),
+            'serves_properties': [c['property_id'] for c in checks],
             'kind_free_text': 'runtime monitoring harness: real Bert-E code '
                               'imported from /repo working tree, driven by '
                               'generated workloads; oracles in vf/func and '
@@ -76,7 +222,8 @@ def main():
                  '/venv/bin/python (fresh interpreter per shard). Exit 0 '
                  'held / 1 violation / 2 inconclusive.',
         'not_applicable': [{'property_id': p, 'reason': NOT_YET}
-                           for p in ALL if p not in CHECKS],
+                           for p in ALL
+                           if p not in [c['property_id'] for c in checks]],
     }
     with open(os.path.join(HERE, 'MANIFEST.json'), 'w') as f:
         json.dump(manifest, f, indent=1)
